@@ -330,6 +330,7 @@ def exec_op(world: World, op):
     if node is None:
         return None
     out = None
+    pre = []            # sub-steps performed inside the operation: (model operation, dump right after it)
     pl = list(path)
     thunk = None
     if name == 'query':
@@ -367,9 +368,26 @@ def exec_op(world: World, op):
         if any(v is None for v in vs):
             return None
         lean = ['setslice', pl, _opt(op[2]), _opt(op[3]), _opt(op[4]), [world.dump(v) for v in vs]]
+        lazy = op[6] if len(op) > 6 else None
 
-        def thunk():
-            node[slice(op[2], op[3], op[4])] = vs
+        if not lazy:
+            def thunk():
+                node[slice(op[2], op[3], op[4])] = vs
+        else:
+            # the assigned value is a GENERATOR that reads durations of nodes of the tree while it is consumed
+            # (`Node.__setitem__` consumes it before it stores the children); in the model: queries, then the store
+            def lazily():
+                for k in range(len(vs) + 1):
+                    for pos, qp in lazy:
+                        target = world.node_at(qp)
+                        if pos == k and target is not None:
+                            target.duration
+                            pre.append((['query', list(qp)], world.dump(world.root)))
+                    if k < len(vs):
+                        yield vs[k]
+
+            def thunk():
+                node[slice(op[2], op[3], op[4])] = lazily()
     elif name == 'setwf':
         d = tuple(op[2]) if op[2] else None
         lean = ['setwf', pl, wf_sx(d)]
@@ -464,7 +482,7 @@ def exec_op(world: World, op):
             world.stash.append(n)
     if out is not None and len(world.stash) < 6:
         world.stash.append(out)
-    return lean, err, out
+    return lean, err, out, pre
 
 
 def _vol_nested(node, above: bool) -> bool:
@@ -621,6 +639,10 @@ def rand_op(rng, world: World, max_nodes=70):
                 stop = rng.choice([None] + list(range(-n - 1, n + 2)))
                 nv = rng.randrange(0, 3) if size <= max_nodes else 0
                 op = ['setslice', path, start, stop, rng.choice([None, 1]), [fresh_arg(rng) for _ in range(nv)]]
+                if rng.random() < 0.4:
+                    # a lazily evaluated value that looks at durations of the target, its ancestors or other nodes
+                    cand = [path[:j] for j in range(len(path) + 1)] * 2 + [list(p) for p, _m in nodes]
+                    op.append([[rng.randrange(0, nv + 1), rng.choice(cand)] for _ in range(rng.randrange(1, 4))])
             elif k < 0.6:
                 # permutation of the node's own children through an extended slice
                 if n < 2:
@@ -709,6 +731,7 @@ ALPHABET_EXTRA = [
     ['setslice', [0], None, None, None, []], ['setrep', [], 0, 'count'],
     ['addmeas', [], [[1, F(1, 2), F(1)]], 'iter'], ['addmeas', [0, 0], [], 'iter'], ['dropmeas', [0]],
     ['addmeas', [1], [], 'list'], ['dropmeas', []],
+    ['setslice', [], 1, 1, None, [_LEAF], [[0, []]]], ['setslice', [0], None, None, None, [], [[0, []], [0, [0]]]],
 ]
 
 
@@ -723,7 +746,8 @@ def run_history(init_spec, ops=None, rng=None, length=0, probe_every=True):
     world = World(init_spec)
     init_dump = world.dump(world.root)
     next0 = world.next
-    rec = {'init': init_spec, 'ops': [], 'lean_ops': [], 'dumps': [], 'errs': [], 'direct': [], 'kinds': []}
+    rec = {'init': init_spec, 'ops': [], 'lean_ops': [], 'dumps': [], 'errs': [], 'direct': [], 'kinds': [],
+           'step_ops': [], 'opidx': []}
     rec['direct0'] = direct_predicates(world) or equality_predicates(world)
     steps = ops if ops is not None else range(length)
     for item in steps:
@@ -733,8 +757,17 @@ def run_history(init_spec, ops=None, rng=None, length=0, probe_every=True):
         r = exec_op(world, op)
         if r is None:
             continue
-        lean, err, out = r
+        lean, err, out, pre = r
         rec['ops'].append(op)
+        for sub_op, sub_dump in pre:
+            rec['lean_ops'].append(sub_op)
+            rec['errs'].append(None)
+            rec['dumps'].append([sub_dump, '-'])
+            rec['direct'].append(None)
+            rec['step_ops'].append(op)
+            rec['opidx'].append(len(rec['ops']) - 1)
+        rec['step_ops'].append(op)
+        rec['opidx'].append(len(rec['ops']) - 1)
         rec['lean_ops'].append(lean)
         rec['errs'].append(err)
         rec['dumps'].append([world.dump(world.root), '-' if out is None else world.dump(out)])
@@ -782,14 +815,17 @@ def evaluate(rec, answer):
     steps = answer[2:]
     for k, (st, err, dump, direct) in enumerate(zip(steps, rec['errs'], rec['dumps'], rec['direct'])):
         _tag, merr, mtree, _next, mout, verdict = st
+        sop, oi = rec['step_ops'][k], rec['opidx'][k]
+        label = sop[0] + ('(generator reading durations of %s while consumed)' % [q for _p, q in sop[6]]
+                          if sop[0] == 'setslice' and len(sop) > 6 and sop[6] else '')
         # 1. the judge (Lean spec on the implementation's state) and the direct predicates
         if verdict != ['ok'] or direct:
-            what = 'after %s %s' % (rec['ops'][k][0], rec['ops'][k][1])
+            what = 'after %s %s' % (label, sop[1])
             if direct:
                 what += ': ' + direct
             if verdict != ['ok']:
                 what += '; the bookkeeping state violates the specification: %s' % sx(verdict)
-            res['violation'] = (k, what)
+            res['violation'] = (oi, what)
             return res
         if merr == 'unsupported':
             res['unsupported'] += 1
@@ -803,7 +839,7 @@ def evaluate(rec, answer):
         if err:
             res['errors'][err] = res['errors'].get(err, 0) + 1
         if ierr != merr:
-            res['drift'] = (k, 'after %s: implementation outcome %s, model outcome %s' % (rec['ops'][k][:2], ierr, merr))
+            res['drift'] = (oi, 'after %s: implementation outcome %s, model outcome %s' % ([label, sop[1]], ierr, merr))
             return res
         impl_tree = None
         if mtree == 'same':
@@ -812,17 +848,17 @@ def evaluate(rec, answer):
             impl_tree = parse_sx(sx(dump[0]))
             hard, soft = diff_trees(impl_tree, mtree)
             if hard:
-                res['drift'] = (k, 'after %s: %s' % (rec['ops'][k][:2], hard))
+                res['drift'] = (oi, 'after %s: %s' % ([label, sop[1]], hard))
                 return res
             res['soft_steps'] += 1 if soft else 0
         if mout != 'same':
             io = parse_sx(sx(dump[1]))
             if io == '-' or mout == '-':
-                res['drift'] = (k, 'copy result present on one side only')
+                res['drift'] = (oi, 'copy result present on one side only')
                 return res
             hard, soft = diff_trees(io, mout)
             if hard:
-                res['drift'] = (k, 'copy: ' + hard)
+                res['drift'] = (oi, 'copy: ' + hard)
                 return res
             res['soft_steps'] += 1 if soft else 0
     return res
@@ -1073,6 +1109,8 @@ def _check_beside(ctx, n):
                 op = ['append', rng.choice(hosts), fresh_arg(rng), rng.choice(['loop', 'kwargs'])]
             else:
                 op = rand_op(rng, w, max_nodes=40)
+            if op[0] == 'setslice' and len(op) > 6:
+                op = op[:6]
             if op[0] == 'copy' or not applicable_pre(w, op):
                 w.root = main
                 continue
@@ -1088,7 +1126,7 @@ def _check_beside(ctx, n):
             w.root = main
             if r is None:
                 continue
-            lean, err, _out = r
+            lean, err, _out, _pre = r
             t1, d1 = w.dump(main), w.dump(d)
             direct = direct_predicates(w)
             w.root = d
@@ -1194,7 +1232,8 @@ def _sequences(alphabet, max_len):
 
 def run(ctx: core.Ctx):
     ctx.rule = ('random histories of the public Loop editing operations (query, append_child [object / keyword form], '
-                'item and slice assignment incl. extended and out-of-range slices, waveform / repetition setters incl. '
+                'item and slice assignment incl. extended and out-of-range slices and lazily evaluated values (generators that '
+                'read durations of the target / ancestors / other nodes while Node.__setitem__ consumes them), waveform / repetition setters incl. '
                 'volatile counts, unroll, unroll_children, split_one_child, encapsulate, _merge_single_child, cleanup, '
                 'reverse_inplace, roll_constant_waveforms, copy_tree_structure) on real Loop trees (1-14 initial nodes, depth <= 3, '
                 'counts in {-1,0,1..4,7,10^6}, 6% error-path operations, detached sub-trees and copies re-used as arguments); '
